@@ -15,4 +15,7 @@ func checkC10(c *Check) {
 	c.disableStopsAndJoins("C10.3 stop-joins-everything")
 	c.packageState("C10.1 package-state")
 	c.rendezvousChannels("C10.3 nothing-parked-at-stop", "inConnCh")
+	c.serverContracts("C10.3 shutdown-protocol")
+	c.peerManagerContracts("C10.3 manager-effects")
+	c.fsmContracts("C10.5 fsm-effects")
 }
